@@ -219,10 +219,15 @@ func c06RunInBubble(msgs []c06Msg, hist []int, serves string) verifx.SearchResul
 				r := bad("state-changed-by-rejected "+msg.kind, "%s: rejected, yet InitializeParams changed from %v to %v", where, paramsBefore, after)
 				return &r
 			}
-			ss.mu.Lock()
-			lvl, ip := ss.state.LogLevel, ss.state.InitializedParams
-			ss.mu.Unlock()
-			if lvl != m.level {
+			_, ipSet, lvl, privOK := privSessionState(ss)
+			if !privOK {
+				return nil // (no private view of the session state: the public InitializeParams above is all there is)
+			}
+			var ip any
+			if ipSet {
+				ip = true
+			}
+			if lvl != LoggingLevel(m.level) {
 				r := bad("state-changed-by-rejected "+msg.kind, "%s: rejected, yet the log level changed to %q", where, lvl)
 				return &r
 			}
@@ -373,14 +378,11 @@ func c06RunInBubble(msgs []c06Msg, hist []int, serves string) verifx.SearchResul
 		}
 		obs = fmt.Sprintf("%s inited=%v->served=%v code=%d", msg.kind, m.inited, served, code)
 	}
-	ss.mu.Lock()
-	lvl := ss.state.LogLevel
-	ip := ss.state.InitializedParams != nil
-	ver := ""
-	if ss.state.InitializeParams != nil {
-		ver = ss.state.InitializeParams.ProtocolVersion
+	ver, ip, lvl, privOK := privSessionState(ss)
+	if !privOK {
+		// without the private view the deduplication key is the model's (what was accepted so far)
+		ip, lvl = m.initd, LoggingLevel(m.level)
 	}
-	ss.mu.Unlock()
 	return verifx.SearchResult{Key: fmt.Sprintf("init=%q initd=%v level=%q", ver, ip, lvl), Obs: obs}
 }
 
